@@ -14,6 +14,25 @@ HANDLER_POLL = "ntex_service::ServiceCtx::<'a, S>::call::{closure#0}"
 WIDE = re.compile(TRANSPARENT_CALLS.pattern[:-2] + r'|new|branch|map_err|map|ok|from_residual)$')
 
 
+def nonzero_model(nm, args, t, path):
+    """skip_logging + NonZero::new(x) folded when the path already knows x != 0 / x == 0."""
+    r = skip_logging(nm, args, t, path)
+    if r is not None:
+        return r
+    if re.search(r'^std::num::NonZero::<T>::new$', nm) and args:
+        x = args[0]
+        for term, c in path.conds:
+            if term[0] == 'bin' and term[1] in ('Ne', 'Eq') and term[2] == x and term[3][0] == 'const' and term[3][1] == 0:
+                truth = 1 if (c[0] == 'ne' and 0 in c[1]) or c == ('eq', 1) else (0 if c == ('eq', 0) else None)
+                if truth is None:
+                    continue
+                nonzero = (truth == 1) == (term[1] == 'Ne')
+                if nonzero:
+                    return ('agg', 'std::option::Option', 'Some', {'0': x})
+                return ('agg', 'std::option::Option', 'None', {})
+    return None
+
+
 def path_facts(d, p, b, ack_sites):
     conds = [(term_str_v(t), c) for t, c in p.conds]
     hp = [(s, c) for s, c in conds if HANDLER_POLL in s and s.startswith('discr(')]
@@ -58,7 +77,7 @@ def publish_fn_rules(F, R, d):
     ack_sites = [(bi, 'PublishAck') for bi, j, s in agg_sites(b, r'^%s$' % re.escape(d.packet), 'PublishAck')] + \
                 [(bi, 'PublishReceived') for bi, j, s in agg_sites(b, r'^%s$' % re.escape(d.packet), 'PublishReceived')]
     R.floor('C03.ack-after-handler', '%s ack constructions in publish_fn' % d.name, len(ack_sites), 2 if d.role == 'server' else 1)
-    se = SymEx(b, F, call_model=skip_logging, loop_visits=1, max_paths=5000)
+    se = SymEx(b, F, call_model=nonzero_model, loop_visits=1, max_paths=5000)
     paths = [p for p in se.run() if p.end[0] == 'return']
     R.ob('C03.ack-after-handler', '%s|publish_fn|paths-enumerated' % d.name, not se.truncated and len(paths) >= 3, 'enumerated %d return paths (truncated=%s)' % (len(paths), se.truncated))
     R.counts['C03:%s publish_fn paths' % d.name] = len(paths)
@@ -79,6 +98,9 @@ def publish_fn_rules(F, R, d):
             else:
                 R.ob('C03.ack-kind', '%s|publish_fn|PublishAck|qos2=%s' % (d.name, f['qos2']), f['qos2'] is False,
                      'PUBACK is produced (and the id released) on a path that never tested the QoS: an inbound QoS 2 PUBLISH is answered with PUBACK and its later PUBREL is refused as unknown' if f['qos2'] is None else 'PUBACK is produced for a QoS 2 message')
+        if f['outcome'] == 'err' and d.name == 'v5-server' and f['try_ack'] == 'ok':
+            R.ob('C03.ack-after-handler', '%s|publish_fn|handler-error-converted=>negative-ack-is-written' % d.name, bool(f['acks']) or f['ret'] == 'Err',
+                 'a handler error is converted with try_ack() on a path that then writes no acknowledgement (no packet id): the failure is swallowed and the connection keeps being served')
         if f['outcome'] == 'err' and not (d.name == 'v5-server' and f['try_ack'] == 'ok'):
             R.ob('C03.ack-after-handler', '%s|publish_fn|handler-error=>Err|try_ack=%s' % (d.name, f['try_ack']), f['ret'] == 'Err' and not f['acks'],
                  'a failing handler does not end in Err (returns %s, acks %s)' % (f['ret'], f['acks']))
@@ -156,6 +178,35 @@ def pubcomp_origin(F, R):
                 R.ob('C03.pubcomp-origin', '%s|control|PublishComplete-in-PublishRelease-arm' % d.name, bi in reg, 'PUBCOMP built for a control answer other than PublishRelease', b.loc(bi))
 
 
+def ack_origin(F, R, d):
+    """PUBACK / PUBREC for an inbound PUBLISH are constructed only in publish_fn (i.e. after the handler);
+    the only other construction allowed in a dispatcher body is the v5 negative acknowledgement on the
+    duplicate-id edge (reason PacketIdentifierInUse)."""
+    n = 0
+    for b in d.bodies():
+        if b is d.publish_fn or b.path.startswith(d.publish_fn.path):
+            continue
+        for variant in ('PublishAck', 'PublishReceived'):
+            for bi, j, st in agg_sites(b, r'^%s$' % re.escape(d.packet), variant):
+                n += 1
+                ok = False
+                if d.ver == 'v5' and b is d.call:
+                    for ibi, it, ap in d.inflight_calls(b, 'insert'):
+                        r = call_bool_branch(b, ibi)
+                        if r and r[0] != 'discr' and bi in b.reachable(r[2], avoid=[r[1]]):
+                            neg = [x for x, jj, ss in agg_sites(b, r'PublishAckReason$', 'PacketIdentifierInUse') if x in b.reachable(r[2], avoid=[r[1]])]
+                            ok = bool(neg)
+                if b is d.control or b.path.startswith(d.control.path):
+                    # answer of the control service to a publish it was handed: built in the PublishAck arm of its result
+                    for adt in [a for a in F.adts if a.endswith('control::ProtocolMessageKind')]:
+                        ve = variant_edges(F, b, adt)
+                        if bi in arm_region(b, ve.get('PublishAck', [])) and variant == 'PublishAck':
+                            ok = True
+                R.ob('C03.ack-after-handler', '%s|%s|%s-built-outside-publish_fn' % (d.name, re.sub(r'(::\{closure#\d+\})+$', '', b.path).split('::')[-1], variant), ok,
+                     'an acknowledgement for a PUBLISH is built without (before) running the handler: the message is acknowledged although no handler completed for it', b.loc(bi))
+    R.counts['C03:%s acks built outside publish_fn' % d.name] = n
+
+
 def single_writer(F, R, d):
     n = 0
     allowed = {'v5-server': 3, 'v5-client': 1, 'v3-server': 0, 'v3-client': 0}[d.name]
@@ -205,6 +256,7 @@ def message_intact(F, R, d):
 def run(F, R):
     for d in all_dispatchers(F):
         publish_fn_rules(F, R, d)
+        ack_origin(F, R, d)
         single_writer(F, R, d)
         message_intact(F, R, d)
     pubcomp_origin(F, R)
